@@ -153,6 +153,14 @@ fn run_history(cfg: &Config, history: &[String]) -> StepOut {
         let (layers, globals) = &info[t];
         let n0 = stack::flog_len();
         let bits_before = bits[t];
+        // cached interest of the callsite about to be hit (F3 needs `always`: enabled() is skipped, so
+        // nothing recomputes the stale bits; with `sometimes` enabled() runs and must overwrite them)
+        let cached_interest: Option<u8> = if matches!(p[1], "ev" | "open") {
+            let name = cs[p[2].parse::<usize>().unwrap()].meta.name;
+            tracing::__macro_support::__verif_snapshot().iter().find(|(m, _, _)| m.name() == name).map(|(_, i, _)| *i)
+        } else {
+            None
+        };
         let visible_ctx = |st: &Vec<SpanRec>, l: u8| -> Vec<&'static str> { st.iter().filter(|s| s.visible.contains(&l)).map(|s| cs[s.cs].meta.name).collect() };
         // verdict of every filter on every layer's path; filter k sees the spans that it and every
         // filter outside it accepted (Context::with_filter combines the ids from the outside in)
@@ -308,7 +316,7 @@ fn run_history(cfg: &Config, history: &[String]) -> StepOut {
             if !ok {
                 // known finding F3: a stale per-layer-filter bit left by an earlier enabled! probe
                 // is consumed by this emission; exactly the layers that rejected the probe miss it
-                let f3 = cfg.f3_open && bits_before != 0 && !extra && emission.is_some() && missing_layers.iter().all(|l| probe_rejecters[t].contains(l)) && !matches!(reply, Rep::Panic(_));
+                let f3 = cfg.f3_open && bits_before != 0 && cached_interest == Some(2) && !extra && emission.is_some() && missing_layers.iter().all(|l| probe_rejecters[t].contains(l)) && !matches!(reply, Rep::Panic(_));
                 if f3 {
                     out.known.push("F3".into());
                     if p[1] == "open" {
@@ -456,6 +464,10 @@ pub fn filter_pool(tier: Tier) -> Vec<FilterD> {
         And(b(Lv(3)), b(Fn(0, None))),
         Or(b(Lv(1)), b(Tg("a=info".into()))),
         Not(b(Lv(3))),
+        // a static filter combined with a context-dependent one, in both operand orders
+        And(b(Lv(3)), b(Dyn(0, None))),
+        And(b(Dyn(0, None)), b(Lv(3))),
+        Or(b(Lv(1)), b(Dyn(0, None))),
     ];
     if tier == Tier::Thorough {
         v.extend([
